@@ -687,3 +687,11 @@ package render
 //@ at call Unlock #1 before assert heldUntilWritten: held && has(c.Cache, path) && c.Cache[path] == source
 //@ ensures cached: has(c.Cache, path) && c.Cache[path] == source
 //@ ensures locked: held
+
+// ExpandTagArg: renders "{{ }}" objects inside a tag's argument text. Called by tag renderers,
+// whose context always carries the tag node.
+//@ func (render.rendererContext).ExpandTagArg
+//@ props C01
+//@ panics nothing
+//@ requires tag: c.node != nil
+//@ assigns *
